@@ -62,6 +62,14 @@ def _cleanup(path: str, pid: int) -> None:
         shutil.rmtree(path, ignore_errors=True)
 
 
+def cleanup_now() -> None:
+    """Remove this process' scratch root now (pool workers leave through os._exit, where atexit handlers do not run)."""
+    global _scratch_root
+    if _scratch_root is not None and _scratch_owner == os.getpid():
+        shutil.rmtree(_scratch_root, ignore_errors=True)
+        _scratch_root = None
+
+
 _counter = 0
 
 
